@@ -70,3 +70,12 @@ Theorem C18_reset_fresh :
     run_from (set_optreset true s) t miss argv = run_from init_state t miss argv.
 Proof. exact reset_fresh. Qed.
 Print Assumptions C18_reset_fresh.
+
+(* wf_table is exactly what getopt_register_opt enforces: among tables whose long names contain
+   no '=', the registration pass (setrange + register_opt per label) succeeds iff wf_table *)
+Theorem C18_registration_enforces_wf :
+  forall s0 (t : table) (miss : option nat) (argv : list str),
+    g_optreset s0 = true -> Forall no_nul argv -> names_nn t -> Forall eq_free (names t) ->
+    ((exists s', start s0 t miss argv = Ok s') <-> wf_table t).
+Proof. exact registration_enforces_wf. Qed.
+Print Assumptions C18_registration_enforces_wf.
